@@ -126,7 +126,7 @@ CHECKS = {
          "exhaustive enumeration of crash points: every file-system mutation call of the pipeline (before/after variants), double crashes, resume with another thread count; each crash state is produced by killing the real run and then resumed by the real --resume",
          "A crash injector wraps open-for-write, remove, rename/replace, makedirs and gffutils.create_db in the doomed process; for each of the "
          "85-182 mutation points of 2 (quick) / 5 (thorough) worlds and both variants the run is killed with os._exit (buffers lost), --resume is "
-         "run, and exit status plus every final output file are compared with an uninterrupted run (itself checked to be reproducible). Thorough "
+         "run, and exit status plus every final output file are compared with an uninterrupted run (itself checked to be reproducible). Two-worker crash states of a --threads 2 run (each chromosome task of a pool stage not started / finished / killed at any of its own mutation points, all pairs, both stages) are enumerated under the virtual pool. Thorough "
          "adds second crashes inside the resumed run and resumes with --threads 2. Crash points before .params is saved are reported as out of scope.",
          "Trusted: kill model (process death, OS-level data kept, no power-loss reordering); sqlite writes of gffutils are one mutation.",
          "DESIGN.md §3 C07"),
